@@ -243,6 +243,16 @@ def check_law(law, expr, o, fresh):
         if law == "L5b" and absent and v[0] == "ok":
             return f"explain lists absent {sorted(absent)} but validate passes"
         return None
+    if law == "C05":
+        from .reference import ref_outcome
+        got = outcome(lambda: e(copy.deepcopy(o)))
+        want = ref_outcome(fresh(), o)
+        if want[0] == "unknown":
+            return None
+        if got[0] != want[0] or (got[0] == "ok" and not same(got, want)):
+            shown = got if got[0] == "ok" else ("err", repr(got[1])[:120])
+            return f"evaluate gives {shown!r}; the eager computation gives {want!r}"
+        return None
     if law == "L6":
         ev = outcome(lambda: e(copy.deepcopy(o)))
         if ev[0] == "err":
@@ -256,7 +266,7 @@ def check_law(law, expr, o, fresh):
 
 
 LAW_OF_GROUP = {"L1": ["L1"], "L2": ["L2"], "L3": ["L3"], "L4a": ["L4a"], "L4t": ["L4t"], "L5": ["L5"], "L5b": ["L5b"], "L5d": ["L5d"],
-                "L6": ["L6"], "L6v": ["L6v"]}
+                "L6": ["L6"], "L6v": ["L6v"], "C05": ["C05"]}
 
 
 def build(recipe):
@@ -301,6 +311,8 @@ def _shadowed(o, d, prefix=""):
 
 def known_region(recipe, o, law):
     """recorded findings (known_findings.json): inputs inside their regions are not reported again"""
+    if law == "C05":
+        return False
     try:
         root = build(recipe)
     except Exception:  # noqa
